@@ -5,6 +5,11 @@ import json
 import os
 import sys
 
+# one BLAS/OpenMP thread per process: the checks parallelise over shard processes; numpy's default (one thread per core in
+# every shard) oversubscribes the machine by a factor of the shard count
+for _v in ("OPENBLAS_NUM_THREADS", "OMP_NUM_THREADS", "MKL_NUM_THREADS", "NUMEXPR_NUM_THREADS"):
+    os.environ.setdefault(_v, "1")
+
 HERE = os.path.dirname(os.path.abspath(__file__))
 sys.path.insert(0, HERE)
 import drive  # noqa: E402
